@@ -153,7 +153,7 @@ def compile_skeleton(sk):
 def setup(sk, code, vals, ix):
     """common part: engine + interpreter with the same symbolic facts, query arguments"""
     from yldprolog.engine import YP
-    yp = YP()
+    yp = ch.new_engine()
     yp.load_script_from_string(code, overwrite=False)
     interp = Interp(sk['clauses'], max_steps=sk.get('max_steps', 1500))
     for (pred, arity), n in sk['facts'].items():
@@ -222,15 +222,14 @@ def build_sld_unit(u, sk):
         try:
             got = real_answers(yp, qname, real_args, cap)
         except Exception as e:
-            info['reason'] = 'query raised %s: %s' % (type(e).__name__, str(e)[:200])
+            ch.note(info, 'query raised %s: %s', type(e).__name__, str(e)[:200])
             return ch.VIOLATED
         if got != exp:
-            with NoTracing():
-                info['reason'] = 'answers %r differ from SLD reference %r' % (got, exp)
+            ch.note(info, 'answers %r differ from SLD reference %r', got, exp)
             return ch.VIOLATED
         for v, _ in qb.rvars:
             if v._is_bound:
-                info['reason'] = 'a query variable is still bound after the enumeration'
+                ch.note(info, 'a query variable is still bound after the enumeration')
                 return ch.VIOLATED
         return ch.HOLDS_NONTRIVIAL if len(exp) >= 1 else ch.HOLDS_TRIVIAL
     return ch.harness_from_spec(u['id'], spec, u.get('fixed', {}), body, info=info)
